@@ -141,7 +141,7 @@ def run_unit(unit, tier='quick', _extra_fns=None):
                 if r2 and r2[3] != 'env':
                     reg = r2
                     break
-        if U.get('only_kinds') and not e['code'] and not re.search(U['only_kinds'], e['kind']):
+        if U.get('only_kinds') and not e['code'] and not re.search(U['only_kinds'], e['kind']) and not (reg and reg[3] == 'canary'):
             continue    # an obligation of another property decided by the sibling variant of this unit
         if e['code']:
             # a rustc error (type/borrow/trait), not a verification condition: the assembled unit is broken
